@@ -16,6 +16,8 @@ AA = "ethosu/vela/architecture_allocator.py"
 def run(repo, rep):
     rep.clause("C10-r", "Box.wrap keeps the coordinates of a broadcast operand inside it (interpreted on probes: a % b, a == b wraps to 0); the padding helpers that feed the stripe boxes bind top / bottom from height and left / right from width quantities")
     rule_box_wrap(repo, rep)
+    rep.clause("C10-s", "the (width, height) getters of Operation are unpacked width first wherever their parts are named (package-wide)")
+    rule_wh_getters(repo, rep)
     rep.clause("C10-a", "output stripes partition the output: every spatial loop is `for s in range(lo, hi, step): e = min(s + step, hi)` with the same bounds; depth uses consecutive slice entries clamped by the same bounds; the OFM box is built from exactly these")
     rep.clause("C10-b", "first / last stripe flags are derived from the same bounds; create_padding overrides top/bottom exactly for partial stripes and clips left/right at the IFM edges")
     rep.clause("C10-c", "stripe geometry is axis- and side-consistent (strides[1]/skirt[0,2]/coord[-3] = H, strides[2]/skirt[1,3]/coord[-2] = W); bottom padding = last kernel row minus IFM height")
@@ -841,3 +843,28 @@ def rule_box_wrap(repo, rep):
             (rep.bad if kind == "bad" else rep.ok)("C10-r", f"ethosu/vela/tflite_graph_optimiser.py:{fname}", txt[:110], detail)
     if m < 4:
         raise AnalysisError(f"padding helpers: only {m} axis-typed bindings")
+
+
+def rule_wh_getters(repo, rep):
+    """(s) Operation.get_kernel_size / get_kernel_stride / get_kernel_dilation return (width, height). Every two-way unpacking of such a call
+    binds a width-named variable first and a height-named one second (the stripe generator derives the dilated kernel height, and from it
+    the bottom padding of every stripe, from these)."""
+    from .c16 import _hw_axis
+
+    n = 0
+    for m in repo.core_modules():
+        for q, fn in m.functions.items():
+            for st in ast.walk(fn):
+                if not (isinstance(st, ast.Assign) and isinstance(st.targets[0], ast.Tuple) and len(st.targets[0].elts) == 2 and isinstance(st.value, ast.Call) and isinstance(st.value.func, ast.Attribute)
+                        and st.value.func.attr in ("get_kernel_size", "get_kernel_stride", "get_kernel_dilation")):
+                    continue
+                a, b = st.targets[0].elts
+                ax_a = _hw_axis(a.id) if isinstance(a, ast.Name) else None
+                ax_b = _hw_axis(b.id) if isinstance(b, ast.Name) else None
+                if ax_a is None and ax_b is None:
+                    continue
+                n += 1
+                rep.check(ax_a != "H" and ax_b != "W", "C10-s", f"{m.rel}:{q}", f"`{str(norm(st))[:80]}` unpacks (width, height)",
+                          f"`{str(norm(st.targets[0]))}` takes the width for the height: for a non-square kernel the dilated kernel height, and the bottom padding of the stripes derived from it, are wrong")
+    if n < 6:
+        raise AnalysisError(f"(w, h) getter unpackings: {n} found")
